@@ -10,7 +10,7 @@ CHECKS = {
         engine="insert", category="exploration",
         technique="property-based testing with two oracles: (a) carried-out placements judged by the independent reference model R (soundness, all features), (b) small-scope brute-force enumeration of every (leg, place, window) by an independent step-by-step simulation (soundness and completeness of exhaustive best insertion for single-task jobs)",
         text="States are solver-reachable (cheapest insertion on generated pragmatic problems stopped after a generated number of insertions). Every waiting job x every tour x every InsertionPosition::Concrete(p) and Any is evaluated through the public eval_job_insertion_in_route with LegSelection::Exhaustive; accepted placements are carried out through InsertionHeuristic::process and judged by R; on problems restricted to windows, shift times and capacity the Any answer must succeed iff a brute-force simulation finds a feasible triple and must return one of them; windows are also placed exactly on, one second before, and degenerate at reachable arrival times. Found and repaired two defects (last job of an open tour rejected when service would end after its window; a window after shift end hid the other places of a job).",
-        note="Trusted: reference model R and the simulation in harness/src/engines/insert.rs. Per-position completeness of Concrete(p) and completeness for multi-task jobs are not claimed by the property and are counted only.",
+        note="Trusted: reference model R and the simulations in harness/src/engines/insert.rs and insert_core.rs (the latter: core-API tours with a shifted departure and TimeSpan::Offset windows of the candidate job; plus a direct matrix check of the legs around a placed activity). Per-position completeness of Concrete(p) and completeness for multi-task jobs are not claimed by the property and are counted only.",
         design_ref="4/C06"),
     "C20": dict(
         engine="insert", category="exploration",
@@ -52,13 +52,13 @@ CHECKS = {
         engine="e2e", category="exploration",
         technique="property-based end-to-end testing: generated problems x solver configs judged by an independent reference model (differential oracle)",
         text="Valid pragmatic problems are generated by construction over the full feature surface (all task kinds, multi-place, multi-window, multi-dimensional demand, skills, groups, compatibility, order, value, limits, breaks, reloads, shared resources, scaled/multiple profiles, unreachable pairs, non-metric matrices) and solved under generated solver configurations (all populations, hyper-heuristics, operator lists, initial methods, thread layouts); every returned solution document is judged by the reference model R, which re-derives schedules and loads from the problem data alone. A second sub-check (e2e_relations_*) first solves the problem lightly, reads relations off that witness solution (any / sequence / strict, departure and arrival anchors, up to two per tour, multi-task jobs in `any`), adds them to the problem and solves again under the generated configuration: R then also judges relation pinning (vehicle, order, contiguity, anchors). Found and fixed a state-wiping defect that disabled time/limit constraints, a shared-resource overdraw in one dimension, and recorded an open reachability finding.",
-        note="Trusted: reference model R (harness/src/engines/refmodel.rs). Interleavings and termination moments are sampled. Required breaks / clustering / recharge / time-dependent matrices are not generated here; relations are derived only for witness tours without reloads and with departure at the earliest start (else the listed order is not itself feasible, which the documentation demands of user relations).",
+        note="Trusted: reference model R (harness/src/engines/refmodel.rs). Interleavings and termination moments are sampled. Sub-check construction_reachability judges insertion-only solutions, which the open known finding on reachability (removals) cannot explain. Required breaks / clustering / recharge / time-dependent matrices are not generated for this property (no time replay for them in R); relations are derived only for witness tours without reloads and with departure at the earliest start (else the listed order is not itself feasible, which the documentation demands of user relations).",
         design_ref="4/C01, 3"),
     "C02": dict(
         engine="e2e", category="exploration",
         technique="property-based end-to-end testing with an exact partition/multiset bookkeeping oracle over job ids, tasks, vehicle shifts and markers",
         text="Same generated problems x configs as C01; the oracle is a pure bookkeeping model: every job complete in exactly one tour or exactly once unassigned with a reason, no foreign or duplicate ids, tours name existing vehicle shifts used once and serve a job, break/reload activities map injectively to definitions of that vehicle shift. Found and fixed an empty-tour defect and a repair panic.",
-        note="Trusted: the bookkeeping part of R. The generator forces infeasible-by-design jobs so the unassigned path is populated.",
+        note="Trusted: the bookkeeping part of R. The generator forces infeasible-by-design jobs so the unassigned path is populated. Sub-check e2e_ext_conservation extends the problems with vicinity clustering (with/without filtering policy), required breaks and witness-derived relations and applies the bookkeeping rules only (restricted semantics). One open known finding: solver panic in the solution writer with a required break and departure rescheduling (solve:panic:format_time@required-break).",
         design_ref="4/C02"),
     "C03": dict(
         engine="e2e", category="exploration",
